@@ -54,7 +54,13 @@ def is_zero(x):
     return all([abs(x[i]) < EPSILON for i in range(len(x))])
 
 def project(u, v):
-    return multiply(dot(u, v) / dot(v, v), v)
+    vv = dot(v, v)
+
+    # the projection onto a zero vector is the zero vector
+    if vv == 0.0:
+        return [0.0]*len(u)
+
+    return multiply(dot(u, v) / vv, v)
 
 def orthogonalize(u, vs):
     for v in vs:
